@@ -10,9 +10,9 @@ pub mod wc_common;
 use wc_common::*;
 
 pub const PATHS: &[&str] = &["f", "g", "d", "d/x", "d/y", "d/e", "d/e/z", "h", "h/i", "ig", "ig/a", "ig/b", "ig/b/c",
-                             "d/ig", "d/ig/q", "y"];
+                             "d/ig", "d/ig/q", "y", "d/c"];
 pub const CONTENTS: &[&str] = &["a\n", "b\n", "c\n", "ab\n", "", "x"];
-pub const LINKS: &[&str] = &["f", "nowhere", "d", "../canary", "h"];
+pub const LINKS: &[&str] = &["f", "nowhere", "d", "../canary", "h", "../d"];
 pub const BASE_IGN: &[&str] = &["/ig/", "ig/", "/g", "y", "/d/e/", "/h", "ig"];
 pub const SPARSE: &[&str] = &["", "d", "d/e", "h", "f", "ig", "d/ig"];
 
@@ -122,6 +122,11 @@ pub fn oracle_snapshot(out: &mut Out, res: &SnapResult, ign: &Ignores) {
             return;
         }
     };
+    if res.known_symlink_follow {
+        out.oracle_fail("snapshot:tracked-path-below-ignored-dir-read-through-symlink", format!("disk={} tree={} states={} sparse={} ign={} -> {}",
+            show_disk(&pre.disk), show_tree(&pre.tree), show_set(&pre.states), show_seq(&pre.sparse), show_set(&res.ign_set), show_tree(t2)));
+        return;
+    }
     let dl = leaves(&pre.disk);
     let ctx = || format!("disk={} tree={} states={} sparse={} ign={} -> {}", show_disk(&pre.disk), show_tree(&pre.tree),
                          show_set(&pre.states), show_seq(&pre.sparse), show_set(&res.ign_set), show_tree(t2));
@@ -171,9 +176,50 @@ pub fn oracle_snapshot(out: &mut Out, res: &SnapResult, ign: &Ignores) {
     }
 }
 
+/// three scripted workspaces that walk into the known defect classes F-C23-1/2/3 (notes/C23.md), so
+/// every run reports them (KNOWN-FINDING lines) and notices when one of them gets repaired
+fn directed(out: &mut Out) {
+    let ig = vec!["/ig/".to_string()];
+    let file = |c: &str| Ent::File(c.as_bytes().to_vec(), false);
+    // F-C23-1: parent of a tracked path below an ignored directory becomes a file
+    let mut env = Env::new();
+    env.put(&p("ig/b/c"), &file("c\n"));
+    let r0 = env.snapshot(out, &[]);
+    let i0 = env.ignores(&[], &r0.pre.disk);
+    oracle_snapshot(out, &r0, &i0);
+    env.rm(&p("ig/b"));
+    env.put(&p("ig/b"), &file("file\n"));
+    let r1 = env.snapshot(out, &ig);
+    let i1 = env.ignores(&ig, &r1.pre.disk);
+    oracle_snapshot(out, &r1, &i1);
+    // F-C23-3: … becomes a symlink to another directory
+    let mut env = Env::new();
+    env.put(&p("ig/b/c"), &file("tracked\n"));
+    env.put(&p("d/c"), &file("other\n"));
+    let r0 = env.snapshot(out, &[]);
+    oracle_snapshot(out, &r0, &i0);
+    env.rm(&p("ig/b"));
+    env.put(&p("ig/b"), &Ent::Link("../d".into()));
+    let r1 = env.snapshot(out, &ig);
+    let i1 = env.ignores(&ig, &r1.pre.disk);
+    oracle_snapshot(out, &r1, &i1);
+    // F-C23-2: a file replaces a directory that holds a conflicted path
+    let mut env = Env::new();
+    let mut gt = GenTree::new();
+    gt.insert(p("d/e/z"), GenV::Conflict(b"base\n".to_vec(), b"left\n".to_vec(), b"right\n".to_vec()));
+    gt.insert(p("g"), GenV::File(b"g\n".to_vec(), false));
+    let t = env.build_tree(&gt);
+    env.check_out(out, &t);
+    env.rm(&p("d/e"));
+    env.put(&p("d/e"), &file("new\n"));
+    let r1 = env.snapshot(out, &[]);
+    oracle_snapshot(out, &r1, &i0);
+}
+
 pub fn run(cfg: &Cfg, out: &mut Out) {
     let mut r = cfg.rng(23);
-    let workspaces = cfg.n(60, 1200);
+    directed(out);
+    let workspaces = cfg.n(100, 1500);
     for w in 0..workspaces {
         let mut env = Env::new();
         // start from a checked-out tree in two thirds of the workspaces, sparse in a third
